@@ -210,7 +210,7 @@ Ltac dec_consts :=
   end.
 
 Ltac sheet_consts :=
-  unfold minus_int; cbn -[tan_deg]; dec_consts; cbn -[tan_deg]; consts.
+  unfold minus_int, minus_int_search; cbn -[tan_deg]; dec_consts; cbn -[tan_deg]; consts.
 
 Ltac finish_sheet Ht :=
   eapply (two_lits _ _ _ _ _ 1 1);
